@@ -514,7 +514,7 @@ impl Property for C01 {
     }
     fn generate(&self, rng: &mut Rng, _case: u64) -> Scenario {
         if rng.chance(35) {
-            return super::watch::gen_watch(rng, &super::watch::WatchOpts { inside_build_pct: 60, ..Default::default() });
+            return super::watch::gen_watch(rng, &super::watch::WatchOpts { inside_build_pct: 60, fail_pct: 15, ..Default::default() });
         }
         let mut sc = gen::gen_graph(rng, &GraphOpts { max_n: 10, ..Default::default() });
         let args = gen::gen_request(rng, &sc);
